@@ -8,10 +8,11 @@ pending = {}
 pp = os.path.join(V, "harness", "props", "NOT_CLAIMED.json")
 if os.path.exists(pp):
     pending = json.load(open(pp))
+integrated = set(open(os.path.join(V, "harness", "props", "INTEGRATED.txt")).read().split())
 for p in props:
     pid = p["id"]
     frag = os.path.join(V, "harness", "props", pid + ".manifest.json")
-    if os.path.exists(frag) and os.path.exists(os.path.join(V, "harness", "props", pid + ".py")):
+    if pid in integrated and os.path.exists(frag) and os.path.exists(os.path.join(V, "harness", "props", pid + ".py")):
         f = json.load(open(frag))
         checks.append({
             "property_id": pid,
@@ -25,7 +26,7 @@ for p in props:
             "technique": f["technique"],
         })
     else:
-        na.append({"property_id": pid, "reason": pending.get(pid, "no check built yet for this property (see DESIGN.md §4 build order); nothing is claimed")})
+        na.append({"property_id": pid, "reason": pending.get(pid, "check under construction, not yet integrated and validated against /repo; nothing is claimed for this property yet")})
 m = {
  "version": 1,
  "setup_cmd": "./setup.sh",
